@@ -262,6 +262,7 @@ OkToString(e) == NamesValue(e.s, e.arg) \/ e.has_dec \/ e.has_hex
 \* does the specification allow event e in the current state?
 Allowed(e) ==
     CASE e.op \in {"session", "buf", "tbl_new", "symver_new", "hash_wf"} -> TRUE
+      [] e.op = "misc" -> Out(e) = "ok"          \* beyond the listed properties: Display/Debug/source and the prose helpers are total
       [] e.op = "notes" -> OkNotes(e)
       [] e.op \in {"sysv_hash", "gnu_hash"} -> OkHashFn(e)
       [] e.op \in {"sysv_find", "gnu_find"} -> OkFind(e)
